@@ -640,7 +640,7 @@ func cconcMonitor(k *CConcCase) []c.Hit {
 			s := &k.Ops[src]
 			scf := &k.Confs[s.Conf]
 			switch {
-			case s.Method != rq.Method || s.URL != rq.URL ||
+			case s.Method != rq.Method || !sameURL(s.URL, rq.URL) ||
 				selectedValuation(scf, s.Params) != selectedValuation(rcf, rq.Params):
 				sig := "wrong-key-hit:cconc"
 				if s.Method == rq.Method && s.URL == rq.URL && (!cleanSelected(scf, s.Params) || !cleanSelected(rcf, rq.Params)) {
